@@ -17,10 +17,11 @@ type state struct {
 	over map[string]string
 	base provider
 	ws   []map[string]bool // written-key sets to record into (block of each active frame)
+	u    *Unit             // when set, large terms are named on write
 }
 
 func (s *state) clone() *state {
-	n := &state{over: make(map[string]string, len(s.over)), base: s.base, ws: s.ws}
+	n := &state{over: make(map[string]string, len(s.over)), base: s.base, ws: s.ws, u: s.u}
 	for k, v := range s.over {
 		n.over[k] = v
 	}
@@ -40,7 +41,17 @@ func (s *state) get(u *Unit, key string) string {
 }
 
 // set overrides a whole key (wholesale write: no per-reference frame information)
+func (s *state) name(key, term string) string {
+	if s.u != nil && len(term) > 100 {
+		if srt, ok := s.u.keySort[key]; ok {
+			return s.u.define(key+"@v", srt, term)
+		}
+	}
+	return term
+}
+
 func (s *state) set(key, term string) {
+	term = s.name(key, term)
 	s.over[key] = term
 	for _, w := range s.ws {
 		w[key] = true
@@ -50,6 +61,7 @@ func (s *state) set(key, term string) {
 
 // setAt overrides a key by a store at the given object reference(s)
 func (s *state) setAt(key, term string, refs ...string) {
+	term = s.name(key, term)
 	s.over[key] = term
 	for _, w := range s.ws {
 		w[key] = true
@@ -242,7 +254,7 @@ func mergeStates(u *Unit, tag string, ins []mergeIn) *state {
 		}
 	}
 	if sameBase {
-		st := &state{over: map[string]string{}, base: ins[0].st.base}
+		st := &state{over: map[string]string{}, base: ins[0].st.base, u: u}
 		keys := map[string]bool{}
 		for _, in := range ins {
 			for k := range in.st.over {
@@ -255,5 +267,5 @@ func mergeStates(u *Unit, tag string, ins []mergeIn) *state {
 		return st
 	}
 	mp := &mergeProv{tag: tag, ins: ins, cache: map[string]string{}}
-	return &state{over: map[string]string{}, base: mp}
+	return &state{over: map[string]string{}, base: mp, u: u}
 }
